@@ -315,7 +315,8 @@ func (w *nodeWorld) verdictFor(j int, mid string) ValidationResult {
 	case x < pr+pi:
 		return ValidationIgnore
 	case x < pr+pi+pw:
-		return ValidationResult(7)
+		// out-of-range values on both sides of the enumeration
+		return []ValidationResult{7, 3, -1, -5, 100}[w.s.hn(fmt.Sprintf("weird|%d|%s", j, mid), 5)]
 	}
 	return ValidationAccept
 }
@@ -589,15 +590,20 @@ func (w *nodeWorld) exec1(it Item) {
 		w.fsend(it, rpcGraft(w.topicName(it.a(1))))
 	case "prune": // [idx, topic, backoff_s]
 		w.fsend(it, rpcPrune(w.topicName(it.a(1)), uint64(it.a(2)), nil))
-	case "pub": // [idx, topic, size] valid message authored by the fake
+	case "pub", "pubdup": // [idx, topic, size] valid message authored by the fake (pubdup: twice in one RPC)
 		if fp := w.fake(int(it.a(0))); fp != nil && fp.outAlive() {
-			m := fp.signedMsg(w.topicName(it.a(1)), w.mkData(int(it.a(2))))
+			m := w.newMsg(fp, w.topicName(it.a(1)), w.mkData(int(it.a(2))))
 			w.sent[midOf(m)] = m
 			w.noteSentBy(fp, m)
 			if w.onFakePub != nil {
 				w.onFakePub(fp, m)
 			}
-			fp.send(rpcPub(m))
+			if it.Op == "pubdup" {
+				// the same message twice in one RPC
+				fp.send(rpcPub(m, m))
+			} else {
+				fp.send(rpcPub(m))
+			}
 		}
 	case "fwd": // [idx, topic, size, author idx] valid message authored by another fake, forwarded by idx
 		fp, au := w.fake(int(it.a(0))), w.fake(int(it.a(3)))
@@ -612,7 +618,7 @@ func (w *nodeWorld) exec1(it Item) {
 			break
 		}
 		if fp != nil && au != nil && fp.outAlive() {
-			m := au.signedMsg(w.topicName(it.a(1)), w.mkData(int(it.a(2))))
+			m := w.newMsg(au, w.topicName(it.a(1)), w.mkData(int(it.a(2))))
 			w.sent[midOf(m)] = m
 			w.noteSentBy(fp, m)
 			if w.onFakePub != nil {
@@ -793,6 +799,15 @@ func (w *nodeWorld) exec1(it Item) {
 		}
 	}
 	s.settle()
+}
+
+// newMsg: a message authored by scripted peer au that the node's signature policy accepts.
+func (w *nodeWorld) newMsg(au *fakePeer, topic string, data []byte) *pb.Message {
+	switch w.plan.ks("sign", "strict") {
+	case "strictnosign", "laxnosign":
+		return mkUnsignedMsg(au.id, topic, data, au.nextSeqno())
+	}
+	return au.signedMsg(topic, data)
 }
 
 // midFor: the message id as the node computes it (default id function unless a plan overrides it).
